@@ -3,7 +3,7 @@
    are one model (they differ only in [has_reloader]) and the correspondence engine runs the same
    histories through all of them. *)
 From Coq Require Import List String NArith ZArith Bool.
-From AM Require Import Rust.Ast Gen.Private Ref.Load Ref.Sys Proofs.SysGrows Proofs.SysStatic Proofs.SysMap Tie.Graph Tie.Maps Gen.Anycache Tie.Records.
+From AM Require Import Rust.Ast Gen.Private Ref.Load Ref.Sys Proofs.SysGrows Proofs.SysStatic Proofs.SysMap Tie.Graph Tie.Maps Gen.Anycache Tie.Records Gen.Dirs Tie.Dirs.
 Import ListNotations.
 
 (* loads (however Compounds nest, whether they succeed, fail or panic) only ever ADD entries *)
@@ -135,3 +135,10 @@ Proof. vm_compute. repeat split. intros e H; discriminate H. Qed.
    the loser of a creation race is dropped by insert, it never overwrites the winner *)
 Theorem C02_code_add_asset_loads_then_inserts : add_asset_wf Gen.Anycache.RawCache_add_asset = true.
 Proof. exact add_asset_loads_then_inserts. Qed.
+
+(* directory loads cache what the model says they cache: Directory<T> reads the listing itself,
+   RecursiveDirectory<T> goes through cache.load for the directory and for every sub-directory (so
+   those entries are in the map afterwards) *)
+Theorem C02_code_directory_loads_go_through_the_cache :
+  dir_load_wf Directory_load = true /\ rec_load_wf RecursiveDirectory_load = true.
+Proof. exact (conj (proj1 (proj2 (proj2 (proj2 (proj2 (proj2 dirs_as_specified)))))) (proj2 (proj2 (proj2 (proj2 (proj2 (proj2 dirs_as_specified))))))). Qed.
